@@ -328,3 +328,76 @@ func checkIESwitch(p *Prog, r *Report, pk *packages.Package, tb *ieTables, fnNam
 		}
 	}
 }
+
+// ---------- registry literals ----------
+
+type regEntry struct {
+	Name string
+	ID   int64
+	Type int64
+	Ent  int64
+	Len  int64
+	Pos  token.Pos
+	// RegEnt is the enterprise id passed to registerInfoElement (must equal Ent)
+	RegEnt int64
+}
+
+// liftRegistry returns every registerInfoElement(*entities.NewInfoElement(name,id,type,ent,len), ent) call with constant
+// arguments in pkg/registry (non-test files), plus problems (non-constant arguments etc.).
+func (p *Prog) liftRegistry() ([]regEntry, []string) {
+	pk := p.pkg("pkg/registry")
+	if pk == nil {
+		return nil, []string{"package pkg/registry not found"}
+	}
+	var out []regEntry
+	var problems []string
+	cval := func(e ast.Expr) (constant.Value, bool) {
+		tv, ok := pk.TypesInfo.Types[e]
+		return tv.Value, ok && tv.Value != nil
+	}
+	for _, f := range pk.Syntax {
+		ast.Inspect(f, func(n ast.Node) bool {
+			call, ok := n.(*ast.CallExpr)
+			if !ok {
+				return true
+			}
+			id, ok := call.Fun.(*ast.Ident)
+			if !ok || id.Name != "registerInfoElement" || len(call.Args) != 2 {
+				return true
+			}
+			star, ok := call.Args[0].(*ast.StarExpr)
+			if !ok {
+				problems = append(problems, p.pos(call.Pos())+": registerInfoElement argument is not *entities.NewInfoElement(...)")
+				return true
+			}
+			inner, ok := star.X.(*ast.CallExpr)
+			if !ok || len(inner.Args) != 5 {
+				problems = append(problems, p.pos(call.Pos())+": registerInfoElement argument is not *entities.NewInfoElement(...)")
+				return true
+			}
+			var vals [5]constant.Value
+			for i, a := range inner.Args {
+				v, ok := cval(a)
+				if !ok {
+					problems = append(problems, p.pos(a.Pos())+": non-constant argument in a registry entry")
+					return true
+				}
+				vals[i] = v
+			}
+			re, ok := cval(call.Args[1])
+			if !ok {
+				problems = append(problems, p.pos(call.Pos())+": non-constant enterprise id")
+				return true
+			}
+			e := regEntry{Name: constant.StringVal(vals[0]), Pos: call.Pos()}
+			e.ID, _ = constant.Int64Val(vals[1])
+			e.Type, _ = constant.Int64Val(vals[2])
+			e.Ent, _ = constant.Int64Val(vals[3])
+			e.Len, _ = constant.Int64Val(vals[4])
+			e.RegEnt, _ = constant.Int64Val(re)
+			out = append(out, e)
+			return true
+		})
+	}
+	return out, problems
+}
